@@ -392,15 +392,24 @@ def step (w : World) (line : String) : World × String :=
     | _ => (w, "badop")
   else (w, "badop")
 
-partial def loop (h : IO.FS.Stream) (out : IO.FS.Stream) (w : World) : IO Unit := do
+/-- `hint err` (inserted by the comparator in tolerant mode): the implementation rejected the next
+    call; if the model accepts it, the model's effect is discarded so both continue from equal states. -/
+partial def loop (h : IO.FS.Stream) (out : IO.FS.Stream) (w : World) (hint : Bool) : IO Unit := do
   let line ← h.getLine
   if line.isEmpty then return ()
   let l := String.ofList (line.toList.filter fun c => c != '\n' && c != '\r')
-  let (w', obs) := step w l
-  out.putStrLn obs
-  loop h out w'
+  if l.startsWith "hint" then
+    out.putStrLn "#"
+    loop h out w true
+  else
+    let (w', obs) := step w l
+    out.putStrLn obs
+    if hint && l.startsWith "call" && obs.startsWith "R ok" then
+      loop h out { w with failNext := none } false
+    else
+      loop h out w' false
 
 def main : IO Unit := do
   let stdin ← IO.getStdin
   let stdout ← IO.getStdout
-  loop stdin stdout {}
+  loop stdin stdout {} false
